@@ -136,6 +136,21 @@ def check_elementwise(ctx: Ctx, term: T, typer: Typer, entry: FunctionInfo, rule
     return n
 
 
+def check_elementwise_in_function(ctx: Ctx, fi: FunctionInfo, typer: Typer, rule="TEN-2", seen: Optional[set] = None) -> int:
+    import ast as _ast
+    from .util import fn_body_nodes
+    seen = set() if seen is None else seen
+    n = 0
+    for node in fn_body_nodes(fi):
+        if isinstance(node, _ast.Assign) and isinstance(node.value, _ast.BinOp):
+            try:
+                t = ctx.X.expr(fi, node.value)
+            except RecursionError:
+                continue
+            n += check_elementwise(ctx, t, typer, fi, rule, seen)
+    return n
+
+
 def check_einsums_in_function(ctx: Ctx, fi: FunctionInfo, typer: Typer, rule1="TEN-1", rule2="TEN-2", seen: Optional[set] = None) -> int:
     """every einsum call site of a function (also those that only feed tests / asserts, which the result DAG does not contain)."""
     import ast as _ast
